@@ -335,6 +335,8 @@ def check_program(ctx, prog, built, insns, inputs_list, replaying=False):
                 ok2 = ctx.require(not changed, "another owned register or declared variable changed", case,
                                   "changed=" + ",".join(changed), cls)
                 status.append("ok" if ok and ok2 else "fail:" + str(cls))
+                if not (ok and ok2):
+                    break      # the machine state is no longer the one the program's author reasons about
             regs, varbytes = regs2, vb2
             if dest[0] != "v":
                 owned.add(dest[1])
